@@ -140,3 +140,10 @@ cfg("MC_valid_2.cfg", valid_consts(FieldAlpha="<- AlphaV2", Conds='= {"", "T", "
 cfg("MC_valid_4.cfg", valid_consts(FieldAlpha="<- AlphaV2", Conds='= {"", "A"}', MaxFrags="= 0", DirOpts="<- DirsV"), VALID_INV, spec="SpecV")
 cfg("MC_valid_2_big.cfg", valid_consts(FieldAlpha="<- AlphaV2", Conds='= {"", "T", "P", "A"}', MaxFrags="= 2", DirOpts="<- DirsV"), VALID_INV, spec="SpecV")
 cfg("MC_valid_3.cfg", valid_consts(FieldAlpha="<- AlphaV3", OpTypes='= {"subscription", "mutation", "query"}', MaxOps="= 2", MaxSel="= 3", Conds='= {"", "Subscription"}', MaxFrags="= 1"), VALID_INV, spec="SpecV")
+
+# ---- C11 / C12: schema models -----------------------------------------------------------------------
+SCHEMA_INV = ["R1_WellFormed", "R1_Broken", "R1_ImageExact", "Emit"]
+cfg("MC_schema_models.cfg", {"MaxSteps": "= 1", "BreakSteps": "<- Never", "EmitModels": "= TRUE"}, SCHEMA_INV)
+cfg("MC_schema_models2.cfg", {"MaxSteps": "= 2", "BreakSteps": "<- Never", "EmitModels": "= TRUE"}, SCHEMA_INV)
+cfg("MC_schema_breaks.cfg", {"MaxSteps": "= 1", "BreakSteps": "= 1", "EmitModels": "= FALSE"}, SCHEMA_INV)
+cfg("MC_schema_breaks0.cfg", {"MaxSteps": "= 0", "BreakSteps": "= 0", "EmitModels": "= FALSE"}, SCHEMA_INV)
